@@ -294,6 +294,7 @@ func c10Directed() []Directed {
 func init() {
 	Register(&Engine{
 		ID:       "C10",
+		Anchors:  []string{"tree.go:URL", "syntax.go:Interceptors.URL", "segment.go:Segment.Valid", "router.go:URL", "mux.go:URL"},
 		Cases:    func(t string) int { return map[string]int{"quick": 800, "thorough": 60000}[t] },
 		Run:      runC10,
 		Directed: c10Directed,
